@@ -280,16 +280,45 @@ pub fn generate_and_run(seed: u64, tier: &str, cases_w: &mut dyn Write, impl_w: 
 	// the reader never filled.
 	if std::env::var("XT_VERIF_PANIC_CASES").map(|v| v != "only").unwrap_or(true) {
 		let mut big = vec![];
-		for i in 0..4000 {
+		for i in 0..14000 {
 			big.extend_from_slice(format!("- b{i}\n").as_bytes());
+		}
+		/// Fills every request completely; from call `from_call` on claims `excess` bytes more, and notes how many bytes it
+		/// had really delivered when it first lied.
+		struct FullLiar {
+			data: Vec<u8>,
+			pos: usize,
+			excess: usize,
+			from_call: usize,
+			calls: usize,
+			lied_at: std::rc::Rc<std::cell::Cell<Option<usize>>>,
+		}
+		impl Read for FullLiar {
+			fn read(&mut self, buf: &mut [u8]) -> io::Result<usize> {
+				let n = buf.len().min(self.data.len() - self.pos);
+				buf[..n].copy_from_slice(&self.data[self.pos..self.pos + n]);
+				self.pos += n;
+				self.calls += 1;
+				if n == buf.len() && n > 0 && self.calls > self.from_call {
+					if self.lied_at.get().is_none() {
+						self.lied_at.set(Some(self.pos));
+					}
+					Ok(n + self.excess)
+				} else {
+					Ok(n)
+				}
+			}
 		}
 		for excess in [1usize, 8, 16, 64, 1000] {
 			for from_call in [0usize, 1] {
+				let lied_at = std::rc::Rc::new(std::cell::Cell::new(None));
+				let l2 = lied_at.clone();
 				let lying = catch_unwind(AssertUnwindSafe(|| {
-					xt::verif::yaml_events(Liar { inner: SchedReader::new(&big, Sched::Full, None), excess, from_call, calls: 0 })
+					xt::verif::yaml_events(FullLiar { data: big.clone(), pos: 0, excess, from_call, calls: 0, lied_at: l2 })
 				}));
 				let tr = trace_field();
-				let honest = catch_unwind(AssertUnwindSafe(|| xt::verif::yaml_events(SchedReader::new(&big, Sched::Full, Some(16384 * (from_call + 1))))));
+				let upto = lied_at.get().unwrap_or(big.len());
+				let honest = catch_unwind(AssertUnwindSafe(|| xt::verif::yaml_events(SchedReader::new(&big, Sched::Full, Some(upto)))));
 				let _ = trace_field();
 				let n = |r: &std::thread::Result<Vec<(u32, u64, u64)>>| r.as_ref().map(|v| v.iter().filter(|e| e.0 != 255).count()).unwrap_or(0);
 				let same = n(&lying) <= n(&honest);
@@ -297,7 +326,7 @@ pub fn generate_and_run(seed: u64, tier: &str, cases_w: &mut dyn Write, impl_w: 
 				if same {
 					writeln!(impl_w, "{id} ok clean").unwrap();
 				} else {
-					writeln!(impl_w, "{id} overread: a reader claiming {excess} bytes more than the 16384 it stored (from call {from_call}) yields {} events, an honest reader delivering the same bytes and then failing yields {}", n(&lying), n(&honest)).unwrap();
+					writeln!(impl_w, "{id} overread: a reader that fills a request of the parser completely and claims {excess} bytes more (from call {from_call}, {upto} bytes really delivered) yields {} events, an honest reader delivering the same {upto} bytes and then failing yields {}", n(&lying), n(&honest)).unwrap();
 				}
 				*st.kinds.entry("over-reporting past a full buffer (parser only, events compared with an honest reader)".to_string()).or_default() += 1;
 				*st.outcomes.entry(if lying.is_ok() { "returned" } else { "clean panic" }.to_string()).or_default() += 1;
